@@ -129,6 +129,25 @@ Definition loki_ok (index : bytes) (c : event * list loki_line * list lobs) : bo
 Definition check_loki (index : bytes) (cs : list (event * list loki_line * list lobs)) : list nat :=
   idx_filter (loki_ok index) cs 0.
 
+(* whole OTLP export requests: one observation per span / record, in request order *)
+Definition trace_req_ok (index : bytes) (c : list res_spans * list lobs) : bool :=
+  all2 (fun e o => event_ok e index None o) (trace_request (fst c)) (snd c).
+Definition check_trace_reqs (index : bytes) (cs : list (list res_spans * list lobs)) : list nat :=
+  idx_filter (trace_req_ok index) cs 0.
+Definition logs_req_ok (index : bytes) (c : list res_logs * list lobs) : bool :=
+  all2 (fun t o => event_ok (otlp_log_build (fst (fst t)) (snd (fst t)) (snd t)) index (otlp_log_dec (snd t)) o)
+       (logs_request_recs (fst c)) (snd c).
+Definition check_logs_reqs (index : bytes) (cs : list (list res_logs * list lobs)) : list nat :=
+  idx_filter (logs_req_ok index) cs 0.
+Definition mk_span tr sp svc nm kind st en status attrs : span :=
+  {| sp_trace := tr; sp_span := sp; sp_parent := []; sp_service := svc; sp_state := []; sp_name := nm; sp_kind := kind;
+     sp_start := st; sp_end := en; sp_datt := 0; sp_dev := 0; sp_dlink := 0; sp_status := Some status; sp_attrs := attrs |}.
+Definition mk_res attrs : otlp_res := {| r_attrs := attrs; r_dropped := 0; r_schema := [] |}.
+Definition mk_scope nm ver attrs : otlp_scope := {| sc_name := nm; sc_version := ver; sc_attrs := attrs; sc_dropped := 0; sc_schema := [] |}.
+Definition mk_rec t sevn sevt body attrs flags tr sp : otlp_rec :=
+  {| o_time := t; o_observed := 0; o_sevnum := sevn; o_sevtext := sevt; o_body := body; o_attrs := attrs; o_dropped := 0;
+     o_flags := flags; o_trace := tr; o_span := sp |}.
+
 (* ---------- stored datapoints ---------- *)
 Definition tag_eqb (a b : tag) : bool := bytes_eqb (fst a) (fst b) && bytes_eqb (snd a) (snd b).
 Definition tags_same (a b : list tag) : bool :=
